@@ -41,7 +41,7 @@
 #include <time.h>
 #include <unistd.h>
 
-#define MAXSETS 512
+#define MAXSETS 2048
 #define MAXQ 256
 
 /* ---------- virtual clock ---------- */
